@@ -159,10 +159,11 @@ class ExprMixin:
             if pc is not None:
                 f = pc.resolve(name)
                 if f is not None and name not in o.fields:
+                    rv = base.with_(refs=frozenset([oid]), locs=frozenset(), extra=None, callee=())
                     if f.is_property:
-                        meths.append(("prop", f, Val(refs=[oid]), pc))
+                        meths.append(("prop", f, rv, pc))
                     else:
-                        meths.append(("bound", f, Val(refs=[oid]), pc))
+                        meths.append(("bound", f, rv, pc))
                     continue
             data = True
         if base.locs:
